@@ -154,11 +154,11 @@ theorem establishAll_ok (rejects : Obj → Bool) (fault : Fault) (p : Parent) (c
       · simp at h
       · simp at h
 
-theorem validateOne_shape (rejects : Obj → Bool) (fault : Fault) (p : Parent) (control : Bool)
+theorem validateGo_shape (rejects : Obj → Bool) (fault : Fault) (p : Parent) (control : Bool)
     (s : Store) (i : Nat) (d : Desired) (cd : CD)
-    (h : (validateOne rejects fault p control s i d).2 = .ok cd) :
+    (h : (validateGo rejects fault p control s i d).2 = .ok cd) :
     cd.desired.key = d.key ∧ cd.current.isSome = (s.get d.key).isSome := by
-  unfold validateOne at h
+  unfold validateGo at h
   split at h <;> try (simp at h; done)
   split at h
   · rename_i hget
@@ -177,6 +177,15 @@ theorem validateOne_shape (rejects : Obj → Bool) (fault : Fault) (p : Parent) 
       subst this
       have ⟨hsk, _⟩ := updateSub_key p control c₀ (desiredObj d) sub hsub
       cases control <;> simp_all [desiredObj]
+
+theorem validateOne_shape (rejects : Obj → Bool) (fault : Fault) (p : Parent) (control : Bool)
+    (s : Store) (i : Nat) (d : Desired) (cd : CD)
+    (h : (validateOne rejects fault p control s i d).2 = .ok cd) :
+    cd.desired.key = d.key ∧ cd.current.isSome = (s.get d.key).isSome := by
+  unfold validateOne at h
+  split at h
+  · simp at h
+  · exact validateGo_shape rejects fault p control s i d cd h
 
 /-- a successful validate returns one `CD` per listed object, for that object -/
 theorem validateAll_shape (rejects : Obj → Bool) (fault : Fault) (p : Parent) (control : Bool)
@@ -248,13 +257,13 @@ theorem pickCD_mem_of (cds : List (Nat × CD)) (order : List Nat) (j : Nat) (cd 
 /-- If `Establish` reports success, every object of the package (whose goroutines are
 in both completion orders) is established: controlled by an active parent; plainly
 owned by an inactive parent if it exists. -/
-theorem establish_ok (rejects : Obj → Bool) (fault : Fault) (p : Parent) (control : Bool)
+theorem establishCore_ok (rejects : Obj → Bool) (fault : Fault) (p : Parent) (control : Bool)
     (s s' : Store) (objs : List Desired) (vorder eorder : List Nat) (ks : List Ref) (hw : WF s)
-    (h : establish rejects fault p control s objs vorder eorder = (s', .ok ks))
+    (h : establishCore rejects fault p control s objs vorder eorder = (s', .ok ks))
     (j : Nat) (d : Desired) (hd : objs[j]? = some d) (hv : j ∈ vorder) (he : j ∈ eorder)
     (hc : control = true ∨ (s.get d.key).isSome = true) :
     IsMine p control d.key s'.objs := by
-  unfold establish at h
+  unfold establishCore at h
   have h1 := validateAll_store rejects fault p control s (pick objs vorder)
   split at h
   · rename_i s1 cds heq
@@ -278,6 +287,18 @@ theorem establish_ok (rejects : Obj → Bool) (fault : Fault) (p : Parent) (cont
     exact this
   · simp at h
   · simp at h
+
+theorem establish_ok (rejects : Obj → Bool) (fault : Fault) (p : Parent) (control : Bool)
+    (s s' : Store) (objs : List Desired) (vorder eorder : List Nat) (ks : List Ref) (hw : WF s)
+    (h : establish rejects fault p control s objs vorder eorder = (s', .ok ks))
+    (j : Nat) (d : Desired) (hd : objs[j]? = some d) (hv : j ∈ vorder) (he : j ∈ eorder)
+    (hc : control = true ∨ (s.get d.key).isSome = true) :
+    IsMine p control d.key s'.objs := by
+  unfold establish at h
+  split at h
+  · simp at h
+  · simp at h
+  · exact establishCore_ok rejects fault p control s s' objs vorder eorder ks hw h j d hd hv he hc
 
 /-! ### ReleaseObjects -/
 
